@@ -397,7 +397,7 @@ func c04Child(r *ev.Run, batch int) {
 				report(r, m, pre, ops, fs, judge, hist)
 			}
 			hist = append(hist, cloneOps(ops))
-			if batch == 1 && si == 0 && r.NeedSample() && len(ops) > 1 && len(fs) == 0 {
+			if r.NeedSample() && len(ops) > 1 && len(fs) == 0 {
 				r.Sample(map[string]interface{}{"schema": string(s.JSON()), "transaction": opsJSON(ops)})
 			}
 			post, err := m.Snapshot(e.DB)
